@@ -7,6 +7,18 @@ use crate::model::{F, MV};
 use proptest::prelude::*;
 
 pub const BOUNDARY_F64: &[f64] = &[
+    // around the 64-bit integer limits (each value is also used negated)
+    9223372036854775808.0,
+    9223372036854777856.0,
+    9223372036854774784.0,
+    9.5e18,
+    9999999999999998976.0,
+    1e19,
+    18446744073709551616.0,
+    18446744073709549568.0,
+    1.2e19,
+    1e16,
+    12345678901234567890.0,
     0.0,
     1.0,
     -1.0,
@@ -104,6 +116,15 @@ pub fn small_f64() -> BoxedStrategy<f64> {
 }
 
 pub const STRING_POOL: &[&str] = &[
+    // text that looks like JSON / ends in a backslash / carries blanks before a line break
+    "C:\\tmp\\",
+    "ends with backslash\\",
+    "[1,2,]",
+    "{\"a\":1,}",
+    ", ]",
+    ",}",
+    "trailing blank \nnext line",
+    "tab\t\nnext",
     "",
     "a",
     "abc",
@@ -184,6 +205,9 @@ pub const KEY_POOL: &[&str] = &[
     "a", "b", "c", "x", "y", "key", "k1", "_u", "if", "then", "true", "null", "sum", "map", "", "1", "0",
     "-1", "1.5", "a b", "a-b", "é", "\"q\"", "it's", "both'\"", "\\", "line\nbreak", "Ａ", "e\u{301}", "é",
     "inputs", "constants", "trueish", "𝒳",
+    // keys that serialisation libraries reserve for their own private encodings
+    "$serde_json::private::Number", "$serde_json::private::RawValue", "$__toml_private_datetime",
+    "k,]", "key\\",
 ];
 
 pub fn any_key() -> BoxedStrategy<String> {
